@@ -315,7 +315,7 @@ func runH3Frames(r *hk.Run, rng *hk.Rand) {
 				}
 			}
 			c := hk.Case{Desc: desc}
-			if i < len(viBoundaries) || i%3 == 0 {
+			if i < len(viBoundaries) || i%10 == 0 {
 				c.Coq = fmt.Sprintf("H3FrameHdr %d %s %s", t, hk.CoqN(l), optBytes(!fp, fb))
 			}
 			r.Add(c, fmt.Sprint("h3h|", t, "|", l), true)
@@ -338,7 +338,7 @@ func runH3Frames(r *hk.Run, rng *hk.Rand) {
 	}
 	// (3) random streams of frames; ParseNext is called again on what is left, up to 4 times
 	n = r.Scale(6000, 300000)
-	modelEvery := n / r.Scale(2000, 20000)
+	modelEvery := n / r.Scale(1200, 20000)
 	for i := 0; i < n; i++ {
 		var in []byte
 		k := rng.Range(1, 4)
@@ -424,7 +424,7 @@ func runH3Frames(r *hk.Run, rng *hk.Rand) {
 				other[1<<40+j] = 1<<40 + j
 			}
 		}
-		h3SettingsAppendCase(r, d, e, other, clean, i%2 == 0 || len(other) > 100)
+		h3SettingsAppendCase(r, d, e, other, clean, i%4 == 0 || len(other) > 100)
 	}
 }
 
